@@ -311,6 +311,57 @@ def run(rep):
             rep.ok("T5-composition", nm, seq)
         else:
             rep.violation("T5-composition", "T5:" + nm, R.fn_where(f), {"calls": seq, "documented": want})
+    # ---------------------------------------------------------------- T6 staging in morph()
+    rep.rule("T6 detail::morph(src, dst, ...): dilate/erode pass the same view as src and dst, so every channel is computed from src into the scratch image "
+             "(morph_impl(nth_channel_view(src,i), nth_channel_view(view(scratch),i)) for i in [0, num_channels)) and dst is written once, by copy_pixels(view(scratch), dst) "
+             "after the channel loop -- no write to dst precedes a read of src")
+    for f in fns:
+        if f["name"] != "boost::gil::detail::morph" or len(f["params"]) != 4:
+            continue
+        rep.count("obligations:T6")
+        sv, dv = f["params"][0]["name"], f["params"][1]["name"]
+        prob = []
+        loops = [x for x, _ in R.find(f["body"], lambda x: x.get("k") in ("For", "While", "Do", "ForRange"))]
+        impl = [(c, pth) for c, pth in R.calls_in(f["body"], lambda n: n.endswith("::morph_impl"))]
+        dst_uses = [(x, pth) for x, pth in R.find(f["body"], lambda x: x.get("k") == "DeclRef" and x.get("name") == dv)]
+        if len(loops) != 1 or len(impl) != 1:
+            prob.append("%d loops, %d morph_impl calls" % (len(loops), len(impl)))
+        else:
+            lp = loops[0]
+            init = R.strip(lp.get("init"))
+            iv = init["decls"][0]["name"] if init and init.get("k") == "Decl" else None
+            i0 = R.key(init["decls"][0].get("init")) if iv else None
+            if i0 != "0" or R.key(lp.get("cond")) != "(%s < %s.num_channels())" % (iv, sv) or R.key(lp.get("inc")) not in ("(%s++)" % iv, "(++%s)" % iv):
+                prob.append("channel loop (%s = %s; %s; %s)" % (iv, i0, R.key(lp.get("cond")), R.key(lp.get("inc"))))
+            c, pth = impl[0]
+            if not any(a is lp and fld == "body" for a, fld, _ in pth):
+                prob.append("morph_impl is not called in the channel loop")
+            a = [R.key(x) for x in c["args"][:2]]
+            if a != ["nth_channel_view(%s,%s)" % (sv, iv), "nth_channel_view(view(intermediate_img),%s)" % iv]:
+                prob.append("morph_impl(%s): expected channel i of the source into channel i of the scratch image" % ", ".join(a))
+            # every mention of dst outside assertions/concept checks is the final copy, after the loop
+            writes = []
+            for x, p2 in dst_uses:
+                calls = [q for q, fld, _ in p2 if q.get("k") == "Call"]
+                outer = calls[0] if calls else None
+                nm = outer["callee"]["name"].split("::")[-1] if outer else None
+                if nm in ("dimensions", "operator==", "operator!=", "__assert_fail", "width", "height"):
+                    continue
+                in_loop = any(q is lp for q, fld, _ in p2)
+                writes.append((nm, R.key(outer) if outer else None, in_loop, outer.get("line") if outer else 0))
+            fin = [w for w in writes if w[1] == "copy_pixels(view(intermediate_img),%s)" % dv]
+            if len(writes) != 1 or len(fin) != 1:
+                prob.append("uses of the destination: %s, expected the single copy_pixels(view(scratch), dst)" % [w[1] for w in writes])
+            elif fin[0][2]:
+                prob.append("copy_pixels(view(scratch), dst) is inside the channel loop: with src == dst (dilate, erode) the channels after the first are computed from the overwritten source")
+            elif fin[0][3] < lp.get("line", 0):
+                prob.append("copy_pixels(view(scratch), dst) precedes the channel loop")
+        key = "T6:detail::morph staging"
+        if prob:
+            rep.violation("T6-staging", key, R.fn_where(f), {"problems": prob})
+        else:
+            rep.ok("T6-staging", key, "loop over all channels into the scratch image, one copy to dst after the loop")
+    rep.floor("obligations:T6", 1)
 
 
 def rename(k, f):
